@@ -80,7 +80,7 @@ def eval_case(case):
     cat, name, role = case['cat'], case['name'], case['role']
     lists = {c: list(case['lists'][c]) for c in CATS}
     pos = lists[cat].index(name)
-    spec = {'banner': case.get('banner', 'SSH-2.0-OpenSSH_8.0'), 'kex': lists['kex'], 'key': lists['key'], 'enc': lists['enc'], 'mac': lists['mac']}
+    spec = {'banner': case.get('banner', 'SSH-2.0-OpenSSH_8.0'), 'kex': lists['kex'], 'key': lists['key'], 'enc': lists['enc'], 'mac': lists['mac'], 'enc_c': case.get('enc_c'), 'mac_c': case.get('mac_c')}
     # Terrapin context of the target, by the published rule
     has_marker, vs, exposed = c04.reference({'role': role, 'kex': lists['kex'], 'enc': lists['enc'], 'mac': lists['mac']})
     want = ref_notes(db, cat, name)
@@ -182,6 +182,10 @@ def strat_scan():
         case = build_case(cat, name, role, pos, {'kex': nk, 'key': nh, 'enc': ne, 'mac': nm})
         if idx % 7 == 0:        # the target twice in its own list
             case['lists'][cat] = case['lists'][cat] + [name]
+        if idx % 4 == 1 and role == 'server':        # the other direction advertises something else; the report is about one direction only
+            # (server role only: for a client the direction that decides the Terrapin context is ambiguous, as in C04)
+            case['enc_c'] = [x for x in case['lists']['enc'] if not refmodel.is_cbc(x)][:2] + ['aes128-ctr', 'aes256-cbc'][: 1 + idx % 2]
+            case['mac_c'] = [x for x in case['lists']['mac'] if not refmodel.is_etm(x)][:2] + ['hmac-sha2-256', 'hmac-sha2-512-etm@openssh.com'][: 1 + (idx // 2) % 2]
         if idx % 5 == 0:        # and also advertised in another category
             c2 = CATS[(CATS.index(cat) + 1 + idx % 3) % 4]
             if name not in case['lists'][c2]:
